@@ -103,7 +103,7 @@ def run_property(prop, fn, level, tier, seed, checker_cmd, explanation, assumpti
         fn(ctx, rep)
         if prop != "C11":
             from . import rules_c11, vg
-            rules_c11.transfer(ctx, rep, set(vg.COVERED))
+            rules_c11.transfer(ctx, rep, set(vg.COVERED), prop)
     except extract.BuildError as e:
         first = ""
         for line in e.log.splitlines():
@@ -176,7 +176,8 @@ def run_property(prop, fn, level, tier, seed, checker_cmd, explanation, assumpti
         "notes": rep.notes,
         "known_findings_reported": n_known,
         "selftest": None if selftest is None else {
-            "mutants": len(selftest), "killed": len([r for r in selftest if r["status"].startswith("killed")]),
+            "mutants": len([r for r in selftest if not str(r["id"]).startswith("twin:")]), "killed": len([r for r in selftest if r["status"].startswith("killed")]),
+            "silent_twins": len([r for r in selftest if r["status"] == "silent"]),
             "missed": [r["id"] for r in selftest if r["status"] == "MISS"], "skipped": [r["id"] for r in selftest if r["status"] == "skipped"],
             "matrix": selftest},
         "tree": extract.tree_hash(),
